@@ -101,7 +101,7 @@ func addrRootedAtAlloc(v ssa.Value) bool {
 // object allocated in the caller (the helper works on the caller's
 // unpublished local, as if its body were written there).
 func (p *Prog) isFreshViaParam(a Access) bool {
-	fn := a.Fn
+	fn := a.Instr.Parent() // the helper the instruction lives in (a.Fn may be the caller it is seen through)
 	if fn == nil || fn.Parent() != nil || knownFuncs[p.Name(fn)] {
 		return false
 	}
@@ -641,4 +641,64 @@ func (p *Prog) genericJoin(s Spawn) (bool, string) {
 		}
 	}
 	return false, "nobody waits for the goroutine's completion signal"
+}
+
+// packageState (G6): goroutines of different peers share nothing but the
+// Server; package-level variables are therefore written only by the package
+// initialiser and by the documented configuration setter (SetLogger), never
+// by code that runs per message (a package-level scratch buffer or template
+// that an encoder writes is a data race between sessions).
+func (c *Check) packageState(rule string) {
+	p := c.P
+	allowed := map[string]string{"logger": "SetLogger"}
+	n := 0
+	for _, fn := range p.AllFuncs {
+		ownInstrs(fn, func(in ssa.Instruction) {
+			var addr ssa.Value
+			switch x := in.(type) {
+			case *ssa.Store:
+				addr = x.Addr
+			case ssa.CallInstruction:
+				// copy / PutUintNN / ReadFull into a slice of a global
+				switch p.calleeDesc(x) {
+				case "builtin:copy":
+					addr = x.Common().Args[0]
+				case "binary.bigEndian.PutUint16", "binary.bigEndian.PutUint32", "binary.bigEndian.PutUint64", "io.ReadFull":
+					addr = x.Common().Args[1]
+				}
+			}
+			if addr == nil {
+				return
+			}
+			var g *ssa.Global
+			v := addr
+			for i := 0; i < 6 && g == nil; i++ {
+				switch y := v.(type) {
+				case *ssa.Global:
+					g = y
+				case *ssa.IndexAddr:
+					v = y.X
+				case *ssa.FieldAddr:
+					v = y.X
+				case *ssa.Slice:
+					v = y.X
+				case *ssa.Parameter:
+					o := p.origin(y)
+					if o == v {
+						i = 6
+					}
+					v = o
+				default:
+					i = 6
+				}
+			}
+			if g == nil || g.Pkg != p.SSA {
+				return
+			}
+			n++
+			c.require(allowed[g.Name()] == p.ownerName(fn), rule, p.Name(fn), "write of package variable "+g.Name(), p.InstrPos(in),
+				"package-level state is written only at initialisation and by its documented setter")
+		})
+	}
+	c.floor(rule, n, 1, "writes of package-level variables")
 }
